@@ -125,7 +125,7 @@ func C03(p *ir.Program, r *report.R) {
 			if s.Fn != fn {
 				continue
 			}
-			c.Guards(name, "sum+=", s.Instr, G{"first-vote-of-validator", "eq(voteSet.votes[vote.ValidatorIndex],nil)"})
+			c.GuardsS(name, "sum+=", s, G{"first-vote-of-validator", "eq(voteSet.votes[vote.ValidatorIndex],nil)"})
 			amt := "?"
 			if bo, ok := s.Val.(*ssa.BinOp); ok && bo.Op == token.ADD && ir.Render(bo.X) == "voteSet.sum" {
 				for _, call := range ir.Calls(p.Func("types", "VoteSet.addVote"), "types.VoteSet.addVerifiedVote") {
@@ -141,7 +141,7 @@ func C03(p *ir.Program, r *report.R) {
 				continue
 			}
 			q := "((types.ValidatorSet.TotalVotingPower(voteSet.valSet) * 2) / 3) + 1)"
-			c.Guards(name, "set maj23", s.Instr,
+			c.GuardsS(name, "set maj23", s,
 				G{"first-majority-only", "eq(voteSet.maj23,nil)"},
 				G{"crossing:before<quorum", "lt(*.sum,(" + q + ")"},
 				G{"crossing:quorum<=after", "le((" + q + ",*.sum)"},
@@ -155,7 +155,7 @@ func C03(p *ir.Program, r *report.R) {
 			if s.Fn != bv {
 				continue
 			}
-			c.Guards("types.(*blockVotes).addVerifiedVote", "sum+=", s.Instr, G{"first-vote-of-validator-for-block", "eq(vs.votes[vote.ValidatorIndex],nil)"})
+			c.GuardsS("types.(*blockVotes).addVerifiedVote", "sum+=", s, G{"first-vote-of-validator-for-block", "eq(vs.votes[vote.ValidatorIndex],nil)"})
 			r.Check("K1", "types.(*blockVotes).addVerifiedVote/sum+=/amount", p.InstrPos(s.Instr), ir.Render(s.Val) == "(vs.sum + votingPower)", "block tally grows by the vote's power: "+ir.Render(s.Val))
 		}
 		// the slot is filled when counted
@@ -206,7 +206,7 @@ func C03(p *ir.Program, r *report.R) {
 		mc := p.Func("types", "VoteSet.MakeCommit")
 		for _, s := range p.Stores(p.Field("types", "Commit.BlockID")) {
 			if s.Fn == mc {
-				c.Guards("types.(*VoteSet).MakeCommit", "commit", s.Instr, G{"precommit-set", ir.EqPat("voteSet.type_", precommitT)}, G{"maj23", "!eq(voteSet.maj23,nil)"})
+				c.GuardsS("types.(*VoteSet).MakeCommit", "commit", s, G{"precommit-set", ir.EqPat("voteSet.type_", precommitT)}, G{"maj23", "!eq(voteSet.maj23,nil)"})
 				r.Check("K1", "types.(*VoteSet).MakeCommit/commit/block-id", p.InstrPos(s.Instr), ir.Render(s.Val) == "*voteSet.maj23", "commit block id is maj23: "+ir.Render(s.Val))
 			}
 		}
@@ -326,7 +326,7 @@ func C03(p *ir.Program, r *report.R) {
 		rl := p.Func("consensus", "ConsensusState.reconstructLastCommit")
 		for _, s := range p.Stores(p.Field("consensus/types", "RoundState.LastCommit")) {
 			if s.Fn == rl {
-				c.Guards(csT+"reconstructLastCommit", "store LastCommit", s.Instr, G{"+2/3", "types.VoteSet.HasTwoThirdsMajority(*)"})
+				c.GuardsS(csT+"reconstructLastCommit", "store LastCommit", s, G{"+2/3", "types.VoteSet.HasTwoThirdsMajority(*)"})
 			}
 		}
 		blockIDKeyLossless(c)
@@ -430,7 +430,7 @@ func quorumRules(c C) {
 		}
 		n++
 		q := "((types.ValidatorSet.TotalVotingPower(voteSet.valSet) * 2) / 3) + 1)"
-		c.Guards(name, "quorum/set maj23", s.Instr,
+		c.GuardsS(name, "quorum/set maj23", s,
 			G{"first-majority-only", "eq(voteSet.maj23,nil)"},
 			G{"crossing:before<quorum", "lt(*.sum,(" + q + ")"},
 			G{"crossing:quorum<=after", "le((" + q + ",*.sum)"},
